@@ -19,6 +19,7 @@
 (*  Meta    (chown/utimes: no content)        Rename from, to              *)
 (*  Unlink  name                              Symlink name, content        *)
 (*  RenameIn name, content                    End / Eof (no effect)        *)
+(*  FsyncFail fd (fsync returned an error)    Failed (other failed call)   *)
 (* The last line of a file is Eof so that a crash after the last real      *)
 (* event is explored too while the diameter stays Len(Trace) + 1.          *)
 (***************************************************************************)
@@ -35,15 +36,15 @@ TInit ==
   /\ l = 1
   /\ par = MkPar("", FALSE, <<>>)
   /\ FsInit("", FALSE)
-  /\ pc = <<"trace", 0, 0>>
+  /\ pc = <<"trace", 0, 0, 0, "run">>
   /\ disc = TRUE
 
-PreIno(e, j) == [vol |-> e.pre[j].content, dur |-> e.pre[j].content]
+PreIno(e, j) == Durable(e.pre[j].content)
 
 TBegin ==
   /\ IsEv("Begin")
   /\ LET e == E
-         base == IF e.hasold THEN <<[vol |-> <<0>>, dur |-> <<0>>]>> ELSE <<>>
+         base == IF e.hasold THEN <<Durable(<<0>>)>> ELSE <<>>
          np == Len(e.pre)
          names == (IF e.hasold THEN {e.target} ELSE {}) \cup {e.pre[j].name : j \in 1 .. np}
      IN /\ par' = MkPar(e.target, e.hasold, e.newc)
@@ -64,10 +65,12 @@ TRename   == IsEv("Rename")   /\ Rename(E.from, E.to)
 TUnlink   == IsEv("Unlink")   /\ Unlink(E.name)
 TSymlink  == IsEv("Symlink")  /\ Symlink(E.name, E.content)
 TRenameIn == IsEv("RenameIn") /\ RenameIn(E.name, E.content)
+TFsyncFail == IsEv("FsyncFail") /\ FsyncFail(E.fd)      \* fsync returned an error (strace fault injection)
+TFailed   == IsEv("Failed")   /\ Failed                 \* write/rename/... returned an error: no effect
 TEnd      == (IsEv("End") \/ IsEv("Eof")) /\ Meta
 
 TStep == \/ TBegin \/ TOpen \/ TOpenDir \/ TWrite \/ TTruncate \/ TFsync \/ TClose \/ TMeta
-         \/ TRename \/ TUnlink \/ TSymlink \/ TRenameIn \/ TEnd
+         \/ TRename \/ TUnlink \/ TSymlink \/ TRenameIn \/ TFsyncFail \/ TFailed \/ TEnd
 
 \* a crash after every consumed event (and before the first one)
 TCrash == l <= Len(Trace) /\ Crash /\ l' = l
